@@ -202,6 +202,10 @@ Qed.
 (* ================================================================== B. names *)
 Definition flat (ch:list nscope) : env := flat_map nsyms ch.
 
+(* (T) visitors.FuncDef refuses a non-declaring definition over a const / comptime variable (1fc2b5c) *)
+Lemma gen_funcdef_checked : gen_funcdef_checks_const = true.
+Proof. reflexivity. Qed.
+
 Lemma lookup_app : forall x a b, lookup x (a ++ b) = match lookup x a with Some y => Some y | None => lookup x b end.
 Proof.
   induction a as [|[y s] r IH]; intro b; simpl; [reflexivity|].
@@ -370,6 +374,23 @@ Proof.
       * constructor; [split; reflexivity|]. apply forall2_weaken. exact Hf.
     + unfold up_fun_id at 1. cbn [filter nfun]. cbn [length]. f_equal.
       fold (up_fun_id (declare f symf (s0 :: r0))). rewrite up_fun_id_declare. exact Hu.
+  - (* FuncAssign *) intros x b IH ch e fp id Hne [Hf Hu]. cbn [aname_stmt rname_stmt]. unfold id_errs.
+    rewrite gen_funcdef_checked.
+    rewrite chain_lookup_flat. pose proof (lookup_rel fp x _ _ Hf) as Hl.
+    assert (Hbody : aname_block (mkn false [] :: mkn true [] :: ch) b = [] <-> rname_block (x :: fp) e b = true).
+    { apply IH; [discriminate|]. split.
+      - unfold flat. cbn [flat_map nsyms app]. fold (flat ch). apply forall2_weaken. exact Hf.
+      - unfold up_fun_id. cbn [filter nfun length]. fold (up_fun_id ch). rewrite Hu. reflexivity. }
+    destruct (lookup x (flat ch)) as [y|], (rlookup x e) as [d|]; try contradiction.
+    + rewrite (access_use ch fp y d Hu Hl). rewrite !errs_app_nil.
+      assert (Hc : ((if use_ok fp d then [] else [(id, KUpvalue)]) = [] /\ const_errs id (Some y) = []) <-> assign_ok fp d = true).
+      { destruct d as [q o|a]; simpl in Hl.
+        - destruct Hl as (H1 & H2 & H3 & H4). unfold const_errs. rewrite H1, H2.
+          destruct q; simpl; try (split; [intros [_ Hx]; discriminate Hx | discriminate]).
+          destruct (path_eqb o fp); simpl; split; auto; try discriminate. intros [Hx _]; discriminate Hx.
+        - unfold const_errs. rewrite Hl. simpl. split; [intros [_ Hx]; discriminate Hx | discriminate]. }
+      rewrite andb_true_iff. rewrite <- Hc, <- Hbody. tauto.
+    + split; [intro Hx; discriminate Hx | intro Hx; discriminate Hx].
   - (* Call *) intros f n ch e fp id Hne [Hf Hu]. cbn [aname_stmt rname_stmt].
     rewrite chain_lookup_flat. pose proof (lookup_rel fp f _ _ Hf) as Hl.
     destruct (lookup f (flat ch)) as [y|], (rlookup f e) as [d|]; try contradiction; [|split; discriminate].
@@ -433,6 +454,8 @@ Lemma flow_sound :
 Proof.
   apply sbc_mutind; try (intros; reflexivity).
   - (* Func *) intros f ps b IH ch id H. cbn [aflow_stmt rflow_stmt] in *.
+    exact (IH (plain_scope :: func_scope :: ch) false (block_rel_plain _ _) H).
+  - (* FuncAssign *) intros x b IH ch id H. cbn [aflow_stmt rflow_stmt] in *.
     exact (IH (plain_scope :: func_scope :: ch) false (block_rel_plain _ _) H).
   - (* Do *) intros b IH ch id H. cbn [aflow_stmt rflow_stmt] in *.
     exact (IH (plain_scope :: ch) false (block_rel_plain _ _) H).
@@ -500,6 +523,8 @@ Proof.
   assert (Hnc : forall ch, case_compl (plain_scope :: ch) false) by (intros ch H; discriminate H).
   apply sbc_mutind; try (intros; reflexivity).
   - (* Func *) intros f ps b IH ch id H. cbn [aflow_stmt rflow_stmt] in *.
+    exact (IH (plain_scope :: func_scope :: ch) false (Hnc _) H).
+  - (* FuncAssign *) intros x b IH ch id H. cbn [aflow_stmt rflow_stmt] in *.
     exact (IH (plain_scope :: func_scope :: ch) false (Hnc _) H).
   - (* Do *) intros b IH ch id H. cbn [aflow_stmt rflow_stmt] in *. exact (IH (plain_scope :: ch) false (Hnc _) H).
   - (* If *) intros t IHt e IHe ch id H. cbn [aflow_stmt rflow_stmt] in *. apply andb_true_iff in H as [H1 H2].
